@@ -188,3 +188,28 @@ Theorem C13_expiry_recheck_same_schedule :
   = [OOk; OOk; OOk; ONotFound; OOk; OVal (VS sb)].
 Proof. exact expiry_recheck_same_schedule. Qed.
 Print Assumptions C13_expiry_recheck_same_schedule.
+
+(* Value isolation.  The Spec's values are immutable, so these are immediate in Coq; they are the statements the
+   harness' isolation predicates (mode "iso": retained answers re-compared after every later call and at the end of the
+   history, arguments overwritten by the caller after the call, copies between keys, iterate-and-remove) point to. *)
+
+(* an answer is a function of the store at the time of the call: whatever history follows, the answers already
+   given stay what they were — for the Spec and for the model of the in-memory backend alike *)
+Theorem C13_answers_never_change_later :
+  forall (h1 h2 : list op) (s : kvmap) (now : N),
+  firstn (length h1) (outs_of (spec_run DefaultDataTTL_ms s now (h1 ++ h2))) = outs_of (spec_run DefaultDataTTL_ms s now h1)
+  /\ firstn (length h1) (outs_of (mem_run DefaultDataTTL_ms repaired s now (h1 ++ h2)))
+     = outs_of (mem_run DefaultDataTTL_ms repaired s now h1).
+Proof.
+  intros h1 h2 s now.
+  exact (conj (answers_never_change_later (spec_step DefaultDataTTL_ms) h1 h2 s now)
+              (answers_never_change_later (mem_step DefaultDataTTL_ms repaired) h1 h2 s now)).
+Qed.
+Print Assumptions C13_answers_never_change_later.
+
+(* a call that does not write k leaves the value stored under k untouched: SetList(k2, GetList(k1)) makes a copy *)
+Theorem C13_other_keys_untouched :
+  forall s now o k, mutates o k = false -> (forall d, o <> KTick d) ->
+  snd (fst (spec_step DefaultDataTTL_ms s now o)) k = s k.
+Proof. exact (spec_other_keys_untouched DefaultDataTTL_ms). Qed.
+Print Assumptions C13_other_keys_untouched.
